@@ -258,6 +258,8 @@ def run_scenario(spec: dict) -> dict:
         except Exception as e:  # noqa: BLE001
             info = {"readback_error": f"{type(e).__name__}: {e}"}
         timeline.append(["save_e", sched.now, len(sched.trace), tc.time()])
+        if result.get("keeper_log") is not None:
+            result["keeper_log"].append(["saved", Path(p).name, sorted(q.name for q in state["keeper_dir"].iterdir())])
         S.mark("save_e", Path(p).name, tc.is_paused(), info)
         return p
 
@@ -364,10 +366,29 @@ def run_scenario(spec: dict) -> dict:
         except BaseException as e:  # noqa: BLE001
             result["client_error"] = f"{type(e).__name__}: {e}"
 
+    keeper = None
+    if spec.get("keeper_max_keep") is not None:
+        # a real LatestStatesKeeper on the states directory; its cleanups (return value, directory listing afterwards) and
+        # what the StateStore actually saved are recorded in one log, in the order they happened
+        from pamiq_core.state_persistence import LatestStatesKeeper
+        ksd = Path(tmp) / ("states2" if spec.get("load_from") and not spec.get("same_states_dir") else "states")
+        ksd.mkdir(parents=True, exist_ok=True)
+        keeper = LatestStatesKeeper(ksd, spec["keeper_max_keep"])
+        klog = result["keeper_log"] = []
+        keeper_cleanup = keeper.cleanup
+
+        def logged_cleanup():
+            r = keeper_cleanup()
+            klog.append(["cleanup", [Path(p).name for p in r], sorted(p.name for p in ksd.iterdir())])
+            return r
+        keeper.cleanup = logged_cleanup
+        state["keeper_dir"] = ksd
+
     def main():
         ct = S.Thread(target=client, name="client")
         ct.start()
-        cfg = dict(states_dir=Path(tmp) / ("states2" if spec.get("load_from") else "states"),
+        cfg = dict(states_dir=Path(tmp) / ("states2" if spec.get("load_from") and not spec.get("same_states_dir") else "states"),
+                   states_keeper=keeper,
                    saved_state_path=(Path(tmp) / "states" / spec["load_from"]) if spec.get("load_from") else None,
                    save_state_condition=save_condition,
                    timeout_for_all_threads_pause=spec.get("pause_timeout", 60.0),
@@ -392,6 +413,40 @@ def run_scenario(spec: dict) -> dict:
             S.mark("launch_done", result["outcome"] or "?", tc.is_paused(), tc.get_time_scale())
         ct.join()
 
+    orig_shutdown, orig_ctl_finally = control_mod.ControlThread.shutdown, control_mod.ControlThread.on_finally
+    if spec.get("interrupt_in_shutdown") is not None:
+        # KeyboardInterrupt delivered to the control (= main) thread while a shutdown requested by the control tick (a
+        # command, the uptime limit, a failed thread) is in progress: before its k-th synchronisation operation
+        sd = {"calls": 0, "inside": False, "ops": 0, "fin": False}
+        base_log = sched.log
+
+        def shutdown_log(*label):
+            base_log(*label)
+            if sd["inside"] and sched.cur and sched.cur.name == "main" and label and label[0] in ("is_set", "set", "clear"):
+                sd["ops"] += 1
+                if sd["ops"] == spec["interrupt_in_shutdown"]:
+                    sched.cur.inject = KeyboardInterrupt()
+        sched.log = shutdown_log
+
+        def logged_shutdown(self):
+            sd["calls"] += 1
+            if sd["calls"] == 1 and not sd["fin"]:
+                sd["inside"], sd["ops"] = True, 0
+                if spec["interrupt_in_shutdown"] == 0:
+                    sched.cur.inject = KeyboardInterrupt()
+            try:
+                return orig_shutdown(self)
+            finally:
+                if sd["inside"]:
+                    sd["inside"] = False
+                    if sched.cur is not None:
+                        sched.cur.inject = None      # the shutdown got through before the interrupt was due
+
+        def logged_ctl_finally(self):
+            sd["fin"] = True
+            return orig_ctl_finally(self)
+        control_mod.ControlThread.shutdown, control_mod.ControlThread.on_finally = logged_shutdown, logged_ctl_finally
+
     if spec.get("interrupt_at") is not None:
         # KeyboardInterrupt delivered to the control (= main) thread at its n-th sleep
         n = {"k": 0}
@@ -413,6 +468,7 @@ def run_scenario(spec: dict) -> dict:
         StateStore.load_state = orig_load
         control_mod.ControlThread.is_max_uptime_reached = orig_uptime
         control_mod.ControlThread.on_start = orig_ctl_start
+        control_mod.ControlThread.shutdown, control_mod.ControlThread.on_finally = orig_shutdown, orig_ctl_finally
         tcm.ThreadController.__init__, tcm.ThreadStatus.__init__ = orig_tc_init, orig_ts_init
         PThread.LOOP_DELAY = old_delay
         control_mod.WebApiServer = WebApiServer
